@@ -39,6 +39,8 @@ struct Scn {
     /// a stream transfer runs on the same connection
     with_stream: bool,
     cap: usize,
+    /// two application tasks wait in get_datagram at the same time (the method takes &self), one datagram each
+    two_readers: bool,
 }
 
 fn mk(d: &D) -> Datagram {
@@ -50,7 +52,10 @@ fn exec(sc: &Scn, render: bool) -> RunOutput {
     let b = SideCfg { opts: opts(2, 1).datagram_buffer_size(sc.buf), rng: vec![] };
     let mut w = World::two(if sc.cap == 0 { UNBOUNDED_CAP } else { sc.cap }, &a, &b);
     w.spawn_dgram_sender(0, "dgsend.a", sc.list.iter().map(mk).collect(), 0, false);
-    if !sc.late_reader {
+    if sc.two_readers {
+        w.spawn_dgram_receiver(1, "dgrecv1.b", 1, false);
+        w.spawn_dgram_receiver(1, "dgrecv2.b", 1, false);
+    } else if !sc.late_reader {
         w.spawn_dgram_receiver(1, "dgrecv.b", usize::MAX, false);
     }
     if sc.with_stream {
@@ -260,7 +265,7 @@ pub fn run(args: &Args) -> Report {
             }
             // a well-formed datagram after the sweep point: refused ones must have no other effect
             list.push(D { flow: 42, host: b"ok".to_vec(), port: 7, data: b"after".to_vec() });
-            let sc = Scn { name: format!("field sweep host_len={hl} payload_len={pl}"), list, buf: 8, late_reader: false, with_stream: false, cap: 0 };
+            let sc = Scn { name: format!("field sweep host_len={hl} payload_len={pl}"), list, buf: 8, late_reader: false, with_stream: false, cap: 0, two_readers: false };
             cases.push(Case { try_unbounded: false, max_k: u32::MAX, label: sc.name.clone(), exec: Box::new(move |r| exec(&sc, r)) });
         }
     }
@@ -271,11 +276,17 @@ pub fn run(args: &Args) -> Report {
                 for cap in if thorough { vec![0usize, 1] } else { vec![0usize] } {
                     let n = buf + 2;
                     let list = (0..n).map(|i| D { flow: 100 + (i as u32 % 2), host: vec![b'h', i as u8], port: 9, data: vec![i as u8; 1 + i % 3] }).collect();
-                    let sc = Scn { name: format!("burst of {n} into buffer {buf} late_reader={late} with_stream={with_stream} cap={cap}"), list, buf, late_reader: late, with_stream, cap };
+                    let sc = Scn { name: format!("burst of {n} into buffer {buf} late_reader={late} with_stream={with_stream} cap={cap}"), list, buf, late_reader: late, with_stream, cap, two_readers: false };
                     cases.push(Case { try_unbounded: false, max_k: u32::MAX, label: sc.name.clone(), exec: Box::new(move |r| exec(&sc, r)) });
                 }
             }
         }
+    }
+    // ---- two application tasks waiting in get_datagram at once: each datagram that arrives must reach one of them
+    for n in [2usize] {
+        let list = (0..n).map(|i| D { flow: 200 + i as u32, host: vec![], port: 1, data: vec![i as u8] }).collect();
+        let sc = Scn { name: format!("{n} datagrams for two tasks waiting in get_datagram at the same time"), list, buf: 4, late_reader: false, with_stream: false, cap: 0, two_readers: true };
+        cases.push(Case { try_unbounded: false, max_k: u32::MAX, label: sc.name.clone(), exec: Box::new(move |r| exec(&sc, r)) });
     }
     let plan = Plan {
         ks: if thorough { vec![0, 1, 2, 3, 4] } else { vec![0, 1, 2] },
